@@ -462,6 +462,26 @@ class SC:
     def log(self):
         return cur().log(self)
 
+    def astype(self, *a, **k):
+        return self
+
+    def arctan(self):
+        """arctan of a real symbolic value as an angle object: cos = 1/sqrt(1+x^2), sin = x/sqrt(1+x^2)"""
+        if not self.is_real():
+            raise HarnessError("arctan of a complex value")
+        n = (SC(ONE) + self * self).sqrt()
+        c = n.reciprocal()
+        return Ang(c.re, (self * c).re)
+
+    def angle(self):
+        """the argument of a non-zero complex number as an angle object (records |z| != 0)"""
+        if self.is_const():
+            z = self.const()
+            return Ang.of(SC.lift(cmath.phase(z)))
+        r = self.abs2().sqrt()
+        ir = r.reciprocal()
+        return Ang((SC(self.re) * ir).re, (SC(self.im) * ir).re)
+
     def arctan2(self, o):
         raise HarnessError("arctan2 on symbolic values is not modelled")
 
@@ -525,6 +545,82 @@ class SC:
 
     def __repr__(self):
         return "SC(%s, %s)" % (self.re, self.im)
+
+
+class Ang:
+    """a symbolic angle known only through its unit phase (c, s) = (cos, sin).  Produced by
+    arctan / angle of symbolic values; supports +, -, negation, adding float multiples of pi or
+    affine parameter forms, mod 2 pi, and multiplication by 1j (for exp(1j * angle))."""
+
+    __array_priority__ = 2000
+    dtype = numpy.dtype(float)
+
+    def __init__(self, c, s):
+        self.c, self.s = c, s
+
+    @staticmethod
+    def of(x):
+        if isinstance(x, Ang):
+            return x
+        x = SC.lift(x)
+        c, s = cur().trig(x)
+        return Ang(c.re, s.re)
+
+    def __add__(self, o):
+        o = Ang.of(o)
+        return Ang(rsub(rmul(self.c, o.c), rmul(self.s, o.s)), radd(rmul(self.s, o.c), rmul(self.c, o.s)))
+
+    __radd__ = __add__
+
+    def __neg__(self):
+        return Ang(self.c, rneg(self.s))
+
+    def __sub__(self, o):
+        return self + (-Ang.of(o))
+
+    def __rsub__(self, o):
+        return Ang.of(o) + (-self)
+
+    def __mod__(self, m):
+        return self          # only multiples of 2 pi are used as moduli; the phase is unchanged
+
+    def __mul__(self, o):
+        if isinstance(o, complex) and o == 1j:
+            return ImAng(self)
+        if isinstance(o, complex) and o == -1j:
+            return ImAng(-self)
+        if isinstance(o, (int, float)) and o == 1:
+            return self
+        if isinstance(o, (int, float)) and o == -1:
+            return -self
+        raise HarnessError("symbolic angle multiplied by %r" % (o,))
+
+    __rmul__ = __mul__
+
+    def cos(self):
+        return SC(self.c)
+
+    def sin(self):
+        return SC(self.s)
+
+    def astype(self, *a, **k):
+        return self
+
+    def __repr__(self):
+        return "Ang(%s, %s)" % (self.c, self.s)
+
+
+class ImAng:
+    """1j * angle"""
+
+    def __init__(self, a):
+        self.a = a
+
+    def exp(self):
+        return SC(self.a.c, self.a.s, None, SC(self.a.c, rneg(self.a.s)))
+
+    def __neg__(self):
+        return ImAng(-self.a)
 
 
 def _lins(a, b):
@@ -626,12 +722,12 @@ class EigArr(XArr):
 
 
 def has_sym(x):
-    if isinstance(x, (SC, SymBool)):
+    if isinstance(x, (SC, SymBool, Ang, ImAng)):
         return True
     if isinstance(x, numpy.ndarray):
         if x.dtype != object:
             return False
-        return any(isinstance(v, (SC, SymBool)) for v in x.flat)
+        return any(isinstance(v, (SC, SymBool, Ang, ImAng)) for v in x.flat)
     if isinstance(x, (list, tuple)):
         return any(has_sym(v) for v in x)
     return False
@@ -656,10 +752,10 @@ def lift_array(a):
 # --------------------------------------------------------------------------- numpy facade
 def _unary(name):
     def f(self, x, *a, **k):
-        if isinstance(x, SC):
+        if isinstance(x, (SC, Ang, ImAng)):
             return getattr(x, name)()
         if isinstance(x, numpy.ndarray) and x.dtype == object:
-            return _ew(lambda v: getattr(SC.lift(v), name)(), x)
+            return _ew(lambda v: getattr(v if isinstance(v, (Ang, ImAng)) else SC.lift(v), name)(), x)
         if isinstance(x, (list, tuple)) and has_sym(x):
             return _ew(lambda v: getattr(SC.lift(v), name)(), xarr(x))
         if self.exact_consts:
@@ -879,6 +975,24 @@ class XNP:
     sinh = _unary("sinh")
     tanh = _unary("tanh")
     log = _unary("log")
+    arctan = _unary("arctan")
+
+    def angle(self, x):
+        if isinstance(x, SC):
+            return x.angle()
+        if isinstance(x, numpy.ndarray) and x.dtype == object:
+            return _ew(lambda v: SC.lift(v).angle(), x)
+        return numpy.angle(x)
+
+    def mod(self, x, m):
+        if isinstance(x, Ang):
+            return x
+        if isinstance(x, SC):
+            if x.lin is not None and abs(float(m) - 2 * math.pi) < 1e-12:
+                # value changes by a multiple of 2 pi: keep the affine form for trig use, free the polynomial value
+                return SC(cur().fresh("mod2pi"), ZERO, x.lin)
+            raise HarnessError("np.mod on a symbolic value")
+        return numpy.mod(x, m)
 
     def isscalar(self, x):
         return isinstance(x, SC) or numpy.isscalar(x)
